@@ -8,6 +8,17 @@ use crate::prng::Rng;
 
 pub const N_KINDS: usize = KIND_NAMES.len();
 
+/// Inputs for the bystander (`misc`) calls: ordinary values and every error
+/// path (overflow, non-finite, malformed, too many digits).
+pub const MISC_FLOATS: [f64; 16] = [
+    0.1, 2.5, -2.5, 1e-30, 1e39, -1e39, 1.7e38, 3.0e38, 1e50, 1e54, f64::MAX,
+    f64::INFINITY, f64::NAN, 123456789.125, -0.0, 5e-324,
+];
+pub const MISC_STRS: [&str; 14] = [
+    "1.5", "-0.25", "abc", "", "1e40", "1e-20", "0.0000000000000000001",
+    "12345678901234567890123456789012345678901", "-.5", "+7.", "1_000", "0e5", "1.5e", "17",
+];
+
 static YIELDS: std::sync::atomic::AtomicBool = std::sync::atomic::AtomicBool::new(false);
 
 /// Hooks build (`--cfg fpdec_verif`) started with `--yields`: plans may
@@ -688,14 +699,8 @@ pub fn gen_op(rng: &mut Rng, cfg: &Cfg, kind: usize, class: Class) -> Op {
         // any other public API call (must not touch the mode)
         21 => {
             let which = rng.below(crate::ops::MISC_NAMES.len() as u64) as u8;
-            let floats: [f64; 16] = [
-                0.1, 2.5, -2.5, 1e-30, 1e39, -1e39, 1.7e38, 3.0e38, 1e50, 1e54, f64::MAX,
-                f64::INFINITY, f64::NAN, 123456789.125, -0.0, 5e-324,
-            ];
-            let strs: [&str; 14] = [
-                "1.5", "-0.25", "abc", "", "1e40", "1e-20", "0.0000000000000000001",
-                "12345678901234567890123456789012345678901", "-.5", "+7.", "1_000", "0e5", "1.5e", "17",
-            ];
+            let floats = MISC_FLOATS;
+            let strs = MISC_STRS;
             let x = if rng.pct(70) { *rng.pick(&floats) } else { f64::from_bits(rng.next_u64()) };
             let big = |rng: &mut Rng| -> Dec {
                 match rng.below(4) {
